@@ -46,6 +46,11 @@ FRAME_R = [['c', 'p', 'v', '0'], ['c', 'p', 'w', '1'], ['b', 'p', 'v', '0'], ['a
            ['c', 'p', 'w', '0'], ['b', 'q', 'u', '1'], ['a', 'p', 'w', '0'], ['a', 'q', 'w', '1']]
 
 
+# a second mini-batch (same columns, other values) for the two-batch history
+FRAME_B = [[r[2] if r[2] in 'uv' else 'u', r[1], r[0], r[3]] for r in FRAME][::-1]
+FRAME_B = [['a' if x[0] == 'u' else 'c', x[1], x[2] if x[2] != 'c' else 'a', x[3]] for x in FRAME_B]
+
+
 def lehmer(ctx_vars, n, decide_int, bounds=None):
     """permutation of range(n) from Lehmer-code variables (variables beyond len(ctx_vars) are 0: the tail keeps its order);
     a variable whose declared range is wider than needed is reduced modulo the number of remaining elements (still onto)"""
@@ -62,11 +67,13 @@ def lehmer(ctx_vars, n, decide_int, bounds=None):
 
 
 class SchedPool:
-    """contract stub: tasks evaluated in a given order on a given partition into workers, each worker on its own copy of the module state"""
+    """contract stub of a pathos pool: tasks evaluated in a given order on a given partition into workers. Worker processes are
+    forked on first use (each starts from a copy of the parent's module state at that moment) and PERSIST across map calls of the
+    same pool object, as real pool workers do; the parent's own state is untouched by what workers do."""
 
     def __init__(self, order, workers, unordered_perm, state_modules):
         self.order, self.workers, self.uperm, self.mods = order, workers, unordered_perm, state_modules
-        self.calls = 0
+        self.wstate = {}
 
     def __enter__(self):
         return self
@@ -76,15 +83,13 @@ class SchedPool:
 
     def _snapshot(self):
         import numpy as np
-        return (random.getstate(), np.random.get_state(), [{k: copy.copy(v) for k, v in vars(m).items() if k.startswith('GLOBAL_') or k == 'IGNORED_VALUES'} for m in self.mods])
+        return (random.getstate(), np.random.get_state(), PL.snapshot_state(self.mods))
 
     def _restore(self, snap):
         import numpy as np
         random.setstate(snap[0])
         np.random.set_state(snap[1])
-        for m, d in zip(self.mods, snap[2]):
-            for k, v in d.items():
-                setattr(m, k, copy.copy(v))
+        PL.restore_state(snap[2])
 
     def _run(self, f, items):
         items = list(items)
@@ -92,12 +97,11 @@ class SchedPool:
         order = self.order[:n] if sorted(self.order[:n]) == list(range(n)) else list(range(n))
         parent = self._snapshot()
         res = [None] * n
-        wstate = {}
         for t in order:
             w = self.workers[t] if t < len(self.workers) else 0
-            self._restore(wstate.get(w, parent))
+            self._restore(self.wstate.get(w, parent))
             res[t] = f(items[t])
-            wstate[w] = self._snapshot()
+            self.wstate[w] = self._snapshot()
         self._restore(parent)
         return res, order
 
@@ -129,14 +133,16 @@ def make_args(**over):
     return a
 
 
-def rank(cr, pool, args, shuffle=None):
+def rank(cr, pool, args, shuffle=None, frame=None, fresh=True):
     import pandas as pd
+    if fresh:
+        PL.fresh_state()
     cr.GLOBAL_PRIOR_COMB_COUNTS.clear()
     saved = cr.random.shuffle
     if shuffle is not None:
         cr.random = types.SimpleNamespace(shuffle=shuffle, seed=lambda *a, **k: None)
     try:
-        res = cr.mixed_rank_graph(pd.DataFrame(FRAME if float(args.mi_stratified_sampling_ratio) >= 1.0 else FRAME_R, columns=COLS), args, pool, PL.PB())
+        res = cr.mixed_rank_graph(pd.DataFrame(frame if frame is not None else (FRAME if float(args.mi_stratified_sampling_ratio) >= 1.0 else FRAME_R), columns=COLS), args, pool, PL.PB())
     finally:
         if shuffle is not None:
             cr.random = random
@@ -197,6 +203,7 @@ def run_job(job):
     ref_trip, ref_g = rank(cr, PL.SerialPool(), make_args(target_ranking_only=mode, mi_stratified_sampling_ratio=ratio))
     ntask = len(ref_trip) // 2
     W = job.get('workers', 1)
+    st['refB'] = rank(cr, PL.SerialPool(), make_args(target_ranking_only=mode), frame=FRAME_B)[0]
 
     nfree = ntask if ntask <= 4 else 3      # pairwise mode has 13 tasks: the first 3 picks are free, the tail keeps its order
 
@@ -215,10 +222,19 @@ def run_job(job):
         order = lehmer(st['o'], ntask, lambda v, lo, hi: int(SInt(v, lo, hi)))
         if cond == 'schedule':
             workers = [int(SInt(v, 0, W - 1)) for v in st['w']]
-            pool = SchedPool(order, workers, None, [cr])
+            pool = SchedPool(order, workers, None, [cr, ie])
             trip, g = rank(cr, pool, make_args(target_ranking_only=mode, mi_stratified_sampling_ratio=ratio))
-            trip2, g2 = rank(cr, SchedPool(order, workers, None, [cr]), make_args(target_ranking_only=mode, mi_stratified_sampling_ratio=ratio))
+            trip2, g2 = rank(cr, SchedPool(order, workers, None, [cr, ie]), make_args(target_ranking_only=mode, mi_stratified_sampling_ratio=ratio))
             w = {'cond': cond, 'order': order, 'workers': workers, 'ratio': ratio}
+            if ratio == 1.0:
+                # a second mini-batch with other data through the SAME pool (workers persist): its scores must be those of a fresh serial run
+                tripB, _ = rank(cr, pool, make_args(target_ranking_only=mode), frame=FRAME_B, fresh=False)
+                if sorted(tripB) != sorted(st['refB']):
+                    batch2 = f'second mini-batch through the same pool differs from a fresh serial run: {sorted(set(tripB) ^ set(st["refB"]))[:4]}'
+                else:
+                    batch2 = None
+            else:
+                batch2 = None
         else:
             def shuf(lst):
                 perm = order[:len(lst)] if sorted(order[:len(lst)]) == list(range(len(lst))) else list(range(len(lst)))
@@ -226,7 +242,10 @@ def run_job(job):
             trip, g = rank(cr, PL.SerialPool(), make_args(target_ranking_only=mode), shuffle=shuf)
             trip2, g2 = trip, g
             w = {'cond': cond, 'order': order, 'mode': mode}
+            batch2 = None
         probs = []
+        if batch2:
+            probs.append(batch2)
         if sorted(trip) != sorted(ref_trip):
             probs.append(f'triplets differ from the serial run: {sorted(set(trip) ^ set(ref_trip))[:4]}')
         if g != ref_g:
@@ -343,14 +362,22 @@ def replay(w):
         return {'reproduced': False, 'what': 'identical scores under PYTHONHASHSEED 0..11'}
     ratio = w.get('ratio', 1.0)
     ref_trip, ref_g = rank(cr, PL.SerialPool(), make_args(target_ranking_only=w.get('mode', 'True'), mi_stratified_sampling_ratio=ratio))
+    probs = []
     if w['cond'] == 'schedule':
-        trip, g = rank(cr, SchedPool(w['order'], w['workers'], None, [cr]), make_args(mi_stratified_sampling_ratio=ratio))
+        pool = SchedPool(w['order'], w['workers'], None, [cr, ie])
+        trip, g = rank(cr, pool, make_args(mi_stratified_sampling_ratio=ratio))
+        if ratio == 1.0:
+            refB = rank(cr, PL.SerialPool(), make_args(), frame=FRAME_B)[0]
+            pool = SchedPool(w['order'], w['workers'], None, [cr, ie])
+            rank(cr, pool, make_args())
+            tripB, _ = rank(cr, pool, make_args(), frame=FRAME_B, fresh=False)
+            if sorted(tripB) != sorted(refB):
+                probs.append(f'second mini-batch through the same pool differs from a fresh serial run: {sorted(set(tripB) ^ set(refB))[:4]}')
     else:
         def shuf(lst):
             perm = w['order'][:len(lst)] if sorted(w['order'][:len(lst)]) == list(range(len(lst))) else list(range(len(lst)))
             lst[:] = [lst[i] for i in perm]
         trip, g = rank(cr, PL.SerialPool(), make_args(target_ranking_only=w.get('mode', 'True')), shuffle=shuf)
-    probs = []
     if sorted(trip) != sorted(ref_trip) or g != ref_g:
         probs.append(f'result differs from the serial run: {sorted(set(trip) ^ set(ref_trip))[:4]}')
     d = direct_scores_ok(trip) if ratio == 1.0 else None
